@@ -52,7 +52,7 @@ func main() {
 	}
 	defer os.RemoveAll(tmp)
 	initSolverPool(runtime.NumCPU())
-	eng := &Engine{repo: *repo, verif: *verif, sorts: newSorts(), tmpdir: tmp, seed: *seed, timeout: *timeout}
+	eng := &Engine{repo: *repo, verif: *verif, sorts: newSorts(), tmpdir: tmp, seed: *seed, timeout: *timeout, skipUnclaimed: *tier != "thorough" && !*verbose}
 	if err := eng.load(); err != nil {
 		fmt.Fprintln(os.Stderr, "ENGINE-ERROR:", err)
 		os.Exit(2)
